@@ -169,6 +169,9 @@ func (t *termer) Term(v ssa.Value) string {
 			if a, ok := x.X.(*ssa.Alloc); ok {
 				return t.allocTerm(a, x)
 			}
+			if ia, ok := x.X.(*ssa.IndexAddr); ok {
+				return t.Term(ia.X) + "[" + t.scalar(ia.Index) + "]"
+			}
 		}
 	case *ssa.Alloc:
 		return t.allocTerm(x, nil)
@@ -418,6 +421,10 @@ func (t *termer) callTerm(c *ssa.Call, idx int) string {
 			parts = append(parts, t.Term(a))
 		}
 		return catTerms(parts)
+	case "(*math/rand.Rand).Perm":
+		return "Perm(" + t.scalar(cm.Args[1]) + ")"
+	case "(*math/rand.Rand).Intn":
+		return "Intn(" + t.scalar(cm.Args[1]) + ")"
 	case "builtin:len":
 		return "len(" + t.Term(cm.Args[0]) + ")"
 	case "(*bytes.Buffer).Bytes", "(*bytes.Buffer).String":
